@@ -695,6 +695,7 @@ func TestC08(t *testing.T) {
 	}
 	c13TestName = "TestC13"
 	c08RequestReuse(t, c)
+	c08TwoClients(t, c)
 	c08NilConstructors(t, c)
 	// peers with different compression habits, one after the other through a handler that supports two algorithms
 	{
